@@ -493,3 +493,30 @@ def report_broken_obligations(ctx, build, found_counterexample):
                   expected="every theorem of Props/%s checks against the facts regenerated from /repo" % ctx.prop,
                   observed="see broken_obligations; the search found no concrete failing input",
                   found_input=False)
+
+
+# ---------------------------------------------------------------------------------------
+# history-level comparison and shrinking
+
+
+def failing_histories(ops, got, want, is_start):
+    """Histories (lists of op strings) in which `got` differs from `want` at some op."""
+    out = []
+    for idxs in split_histories(ops, is_start):
+        bad = [i for i in idxs if got[i] != want[i]]
+        if bad:
+            out.append(([ops[i] for i in idxs], bad[0] - idxs[0]))
+    return out
+
+
+def shrink_history(hist, fails, keep_first=True):
+    """Delta-debug a failing history; `fails(ops)` re-runs both sides. The first op (the one
+    that creates the object) is kept."""
+    head, tail = (hist[:1], hist[1:]) if keep_first else ([], hist)
+    if not fails(head + tail):
+        return hist  # not reproducible in isolation (should not happen: both sides are deterministic)
+    small = ddmin(tail, lambda t: fails(head + t)) if tail else tail
+    if tail and not fails(head + small):
+        return hist
+    # try dropping the remaining ops one at a time once more (ddmin granularity 1 pass)
+    return head + small
